@@ -11,6 +11,7 @@ import (
 func TestC14(t *testing.T) {
 	r := core.Begin(t, "C14")
 	defer r.End()
+	core.DFS(r, core.Check[largeCase]{Name: "large-sizes", Gen: genLarge([]string{"Map"}), Exec: execLarge("C14"), NoJournal: true}, 0)
 	keyTypes := []string{"string", "int", "rune", "any", "nan", "ptr"}
 	core.Rapid(r, core.Check[assocCase]{Name: "history", Gen: genAssocCase("map", keyTypes, 40, 8), Exec: execAssocCase}, r.N(3000, 30000))
 	core.DFS(r, core.Check[assocCase]{Name: "small-histories", Gen: genSmallAssoc("map", r.N(3, 4)), Exec: execAssocCase, NoJournal: true}, 0)
